@@ -455,6 +455,58 @@ func (j *judgeCtx) overlapping(p *types.Project) {
 	}
 }
 
+// failing is an extension payload whose rendering fails.
+type failing struct{}
+
+func (failing) MarshalYAML() (any, error)    { return nil, fmt.Errorf("this payload cannot be rendered") }
+func (failing) MarshalJSON() ([]byte, error) { return nil, fmt.Errorf("this payload cannot be rendered") }
+
+// afterFailedRendering: a rendering with secret content that fails half way (an extension payload
+// that cannot be rendered, emitted after the secrets) leaves nothing behind: the next plain
+// renderings are what they are when nothing failed before.
+func (j *judgeCtx) afterFailedRendering(p *types.Project) {
+	quiet := map[string][]byte{}
+	for _, m := range modes[:2] {
+		b, err, pi := render(p, m)
+		if err != nil || pi != nil {
+			return
+		}
+		quiet[m.format] = b
+	}
+	q, err := p.WithProfiles(p.Profiles)
+	if err != nil {
+		return
+	}
+	if q.Extensions == nil {
+		q.Extensions = types.Extensions{}
+	}
+	q.Extensions["x-zz-unrenderable"] = failing{}
+	failed := 0
+	for _, m := range modes[2:] {
+		if _, err, pi := render(q, m); err != nil && pi == nil {
+			failed++
+		}
+	}
+	j.s.Eval(4)
+	if failed == 0 {
+		j.s.Add("failing_rendering_did_not_fail", 1)
+		return
+	}
+	j.s.Add("plain_renderings_after_a_failed_content_rendering", 2)
+	for _, m := range modes[:2] {
+		b, err, pi := render(p, m)
+		if err != nil || pi != nil || !bytes.Equal(b, quiet[m.format]) {
+			what := "differs: " + firstDiff(string(quiet[m.format]), string(b))
+			if err != nil {
+				what = "fails: " + err.Error()
+			}
+			j.vio(map[string]string{"kind": "plain-rendering-changed-by-failed-content-rendering", "format": m.format},
+				"after a rendering with secret content of a copy of the project failed half way, the plain "+m.format+" rendering "+what)
+			return
+		}
+	}
+}
+
 func (j *judgeCtx) coresOf(section, name string) []string {
 	for _, o := range j.k.Objects {
 		if o.Section == section && o.Name == name {
@@ -650,6 +702,9 @@ func judge(s *core.Shard, k *kase) {
 	j.renderAll(p, "loaded")
 	if nontrivial && len(k.LD.Key())%3 == 0 {
 		j.overlapping(p)
+	}
+	if nontrivial {
+		j.afterFailedRendering(p)
 	}
 
 	// derivations (taken after the project has been rendered with WithSecretContent)
